@@ -1,6 +1,6 @@
 (** C05 — wrist singularity detected in a two-sided band on the model angle of J5; J4/J6 move equally. *)
 From Coq Require Import ZArith Reals List Bool.
-From VF Require Import Base.Num Model.Constraints Model.Kin Proofs.ConstraintsP Proofs.KinP Gen.Consts.
+From VF Require Import Base.Num Base.Lin Model.Constraints Model.Kin Proofs.ConstraintsP Proofs.KinP Gen.Consts Gen.Forward Proofs.SingGeom Proofs.SingRestore.
 Import ListNotations.
 Open Scope R_scope.
 
@@ -18,3 +18,46 @@ Proof. exact recovered_moves_equally. Qed.
 
 (** documented band: 0.01 degree (generated from the source constant) *)
 Check (eq_refl : SINGULARITY_ANGLE_THR = 1 / 100 * PI / 180).
+
+(** geometric meaning of the flag, on the link frames generated from forward_with_joint_poses: the flag is raised exactly when the
+    sine of the angle between the rotation axes of joints 4 and 6 (z axes of link frames 4 and 6) is below sin(threshold), for
+    every parameter set, sign convention and offset *)
+Theorem C05_flag_iff_axes : forall (p : Lin.Params) thr (j : J6), 0 < thr -> thr <= PI / 2 ->
+  (singular PI thr (map IZR [p_sg1 p; p_sg2 p; p_sg3 p; p_sg4 p; p_sg5 p; p_sg6 p])
+            [p_off1 p; p_off2 p; p_off3 p; p_off4 p; p_off5 p; p_off6 p] (jl j) = true
+   <-> axes_sine p j < sin thr).
+Proof. intros p thr j H1 H2. exact (singular_iff_axes p thr H1 H2 j). Qed.
+
+Theorem C05_collinear_is_singular : forall (p : Lin.Params) thr (j : J6), 0 < thr -> thr <= PI / 2 ->
+  vcross (zaxis (List.nth 3 (chain p j) iid)) (zaxis (List.nth 5 (chain p j) iid)) = mkV3 0 0 0 ->
+  singular PI thr (map IZR [p_sg1 p; p_sg2 p; p_sg3 p; p_sg4 p; p_sg5 p; p_sg6 p])
+           [p_off1 p; p_off2 p; p_off3 p; p_off4 p; p_off5 p; p_off6 p] (jl j) = true.
+Proof. intros p thr j H1 H2. exact (collinear_is_singular p thr H1 H2 j). Qed.
+
+(** the recovered candidate IS the previous vector when the singular kernel row has the previous arm angles and J5 and a congruent
+    wrist sum (J4+J6 at J5=0, J4-J6 at J5=pi) *)
+Theorem C05_candidate_restores_previous : forall hp thr sg off previous now, 0 < hp ->
+  length previous = 6%nat -> nth 3 sg 0 * nth 3 sg 0 = 1 -> nth 5 sg 0 * nth 5 sg 0 = 1 ->
+  jn now 0 = jn previous 0 -> jn now 1 = jn previous 1 -> jn now 2 = jn previous 2 -> jn now 4 = jn previous 4 ->
+  (if are_angles_close hp thr (to_model sg off now 4) 0
+   then is_rep hp (to_model sg off now 3 + to_model sg off now 5) (to_model sg off previous 3 + to_model sg off previous 5)
+   else is_rep hp (to_model sg off now 3 - to_model sg off now 5) (to_model sg off previous 3 - to_model sg off previous 5)) ->
+  sing_candidate hp thr sg off previous now = previous.
+Proof. intros hp thr sg off previous now H. exact (candidate_restores_previous hp H thr sg off previous now). Qed.
+
+(** non-vacuity: the previous vector itself meets every hypothesis (any 6-vector, any +-1 signs) *)
+Example C05_candidate_fixpoint : forall hp thr sg off previous, 0 < hp -> length previous = 6%nat ->
+  nth 3 sg 0 * nth 3 sg 0 = 1 -> nth 5 sg 0 * nth 5 sg 0 = 1 -> sing_candidate hp thr sg off previous previous = previous.
+Proof.
+  intros hp thr sg off previous H Hl H3 H5. apply C05_candidate_restores_previous; try assumption; try reflexivity.
+  destruct (are_angles_close _ _ _ _); apply is_rep_refl.
+Qed.
+
+(** ... and once the previous vector is among the raw answers (kernel rows and the recovered candidate) it is the FIRST answer of
+    inverse_continuing, for every kernel, FK verdict and shift behaviour (unweighted sorting, previous within the limits) *)
+Theorem C05_first_is_previous : forall hp thr sg off dof cons (Pose : Type) kernel kernel5 shift fk_ok, 0 < hp ->
+  (forall (pose : Pose) s, In s (kernel pose) -> length s = 6%nat) ->
+  forall pose prev, dof <> 5%Z -> length prev = 6%nat -> weight cons = 0 -> compliant_opt hp cons prev = true ->
+  In prev (shifts_loop hp thr sg off cons Pose kernel shift fk_ok pose prev [0; 1; 2; 3]%nat []) ->
+  exists rest, inverse_continuing hp thr sg off dof cons Pose kernel kernel5 shift fk_ok pose false prev = prev :: rest.
+Proof. intros hp thr sg off dof cons Pose kernel kernel5 shift fk_ok H Hk. exact (first_is_previous hp H thr sg off dof cons Pose kernel kernel5 shift fk_ok Hk). Qed.
